@@ -264,3 +264,81 @@ func vMaskPointers(s string) string {
 	}
 	return string(out)
 }
+
+// vh_C20_kinds: a program gives its value in a fresh interpreter whatever
+// interpreters - of the same or of another configuration (bare sandbox,
+// sandbox with the standard setup, full interpreter with the standard setup)
+// - the process created and used before it.  Every interpreter of the
+// sequence runs the program; each must produce the known value.
+var vC20KindPrograms = []struct {
+	src, want string
+	needStd   bool
+}{
+	{`(def a [10 20 30]) {a[1] + 1}`, `21`, true},
+	{`(def h (hash k: 5)) {h.k * 2}`, `10`, true},
+	{`{ x := 3; x += 4; x }`, `7`, true},
+	{`{ s := 0; for i := range 4 { s += i }; s }`, `6`, true},
+	{`(def a [10 20 30]) { a[0:2] } (len (aget a 0))`, ``, true}, // an error text: must be the same error everywhere
+	{`(defn f [n] (cond (<= n 0) 0 (+ n (f (- n 1))))) (f 4)`, `10`, false},
+	{`(first (map (fn [u] (* u u)) [7]))`, `49`, false},
+	{`(def h (hash a: 1 b: 2)) (hdel h a:) (str h)`, `"{b:2}"`, false},
+	{`(< (quote car) (quote cdr))`, ``, false}, // whatever it is, the same everywhere
+	{`(def g (gensym)) (== g g)`, `true`, false},
+	{`(struct Dog [(field N: int64 e:0)]) (:N (Dog N: 8))`, `8`, true},
+	{`(defmac m [x] ^(+ ~x 1)) (m 4)`, `5`, false},
+}
+
+func vC20MakeKind(kind int) *Zlisp {
+	switch kind {
+	case 0:
+		return NewZlispSandbox()
+	case 1:
+		e := NewZlispSandbox()
+		e.StandardSetup()
+		return e
+	default:
+		e := NewZlisp()
+		e.StandardSetup()
+		return e
+	}
+}
+
+func vC20RunIn(env *Zlisp, src string) string {
+	res, err, p := vEvalString(env, src)
+	switch {
+	case p:
+		return "panic"
+	case err != nil:
+		return "err:" + err.Error()
+	}
+	return vMaskPointers(res.SexpString(nil))
+}
+
+func vh_C20_kinds() {
+	vFormatOpaque(true)
+	vMapOrder(false, 0)
+	k := vChoice("program", len(vC20KindPrograms))
+	prog := vC20KindPrograms[k]
+	n := 2 + vChoice("n", 2)
+	var first [3]string
+	var seen [3]bool
+	for i := 0; i < n; i++ {
+		kind := vChoice("kind", 3)
+		env := vC20MakeKind(kind)
+		if prog.needStd && kind == 0 {
+			vC20RunIn(env, `(+ 1 2)`) // a bare sandbox has no infix/builders: just use it
+			continue
+		}
+		got := vC20RunIn(env, prog.src)
+		if prog.want != "" {
+			vAssert(got == prog.want, "known-value-in-every-interpreter")
+		}
+		if seen[kind] {
+			vAssert(got == first[kind], "same-result-as-the-earlier-interpreter-of-this-configuration")
+		} else {
+			seen[kind], first[kind] = true, got
+		}
+	}
+	vReach("kinds")
+	vReachIdx("kinds", k, len(vC20KindPrograms))
+}
